@@ -87,6 +87,14 @@ func writeReplay(p *Prog, o *Obligation, prop, verif, repo string) ReplayInfo {
 	}
 	if o.Res.Status == "sat" {
 		tryReplay(p, o, rf, repo)
+		// keep the model readable: drop long access paths that the test did not need
+		small := map[string]string{}
+		for k, v := range rf.Model {
+			if len(k) < 160 {
+				small[k] = v
+			}
+		}
+		rf.Model = small
 	} else {
 		rf.Note = "the solver produced no model (" + o.Res.Status + "): obligation undischarged, no failing input found"
 	}
